@@ -121,6 +121,7 @@ class Translator:
         self.float_consts = float_consts or {}
         self.fresh = 0
         self.extra_defs = []
+        self.static_isinstance = False
 
     def gensym(self, base):
         self.fresh += 1
@@ -181,7 +182,9 @@ class Translator:
     # ------------------------------------------------------------ methods
     def method(self, cls: Cls, name: str) -> str:
         spec = cls.methods[name] or {}
-        fn = cls.defs.get(name)
+        # "meth#variant": the same Python method translated under another declared parameter type (a method that
+        # dispatches on isinstance(other, ...) has one translation per argument class)
+        fn = cls.defs.get(name.split("#")[0])
         if fn is None:
             raise Unsupported(f"{cls.name}.{name} not found")
         decos = [ast.unparse(d) for d in fn.decorator_list]
@@ -212,7 +215,7 @@ class Translator:
         rty = coq_ty(ret) if pure else f"({cls.name} * {coq_ty(ret)})"
         if m.raises:
             rty = f"(option {rty})"
-        return "".join(self.extra_defs[n_extra:]) + f"Definition {cls.name}_{name} {args} : {rty} :=\n{textwrap.indent(text, '  ')}.\n"
+        return "".join(self.extra_defs[n_extra:]) + f"Definition {cls.name}_{name.replace('#', '_')} {args} : {rty} :=\n{textwrap.indent(text, '  ')}.\n"
 
 
 class Env:
@@ -237,7 +240,7 @@ class MethodCtx:
         self._uses_raise = self._scan_raise()
 
     def _scan_raise(self):
-        fn = self.cls.defs[self.name]
+        fn = self.cls.defs[self.name.split("#")[0]]
         # the l[0] inside `while l and l[0] < c` (drop-while idiom) is guarded by the truthiness test: not a raising read
         guarded = {id(x) for w in ast.walk(fn) if isinstance(w, ast.While) for x in ast.walk(w.test)}
         # (the pop(0) of the drop-while idiom is guarded by its own loop test; other while loops are rejected anyway)
@@ -537,6 +540,22 @@ class MethodCtx:
             a0, a1 = test.args
             if isinstance(a0, ast.Name) and isinstance(a1, ast.Name) and env.locals.get(a0.id) == a1.id:
                 return self.block(list(body) + list(rest), env, mode)
+            # decided by the declared type of the parameter (values of a declared class are instances of exactly
+            # that class; a declared Z is an int): classes of the target, int, float
+            if isinstance(a0, ast.Name) and a0.id in env.locals and self.tr.static_isinstance:
+                t0 = env.locals[a0.id]
+                names = [a1] if isinstance(a1, ast.Name) else list(a1.elts) if isinstance(a1, ast.Tuple) else None
+                if names is not None and all(isinstance(n, ast.Name) for n in names) and (t0 in self.tr.classes or t0 in ("Z", "F")):
+                    def holds(n):
+                        if n.id in self.tr.classes:
+                            return t0 == n.id
+                        if n.id == "int":
+                            return t0 == "Z"
+                        if n.id == "float":
+                            return t0 == "F"
+                        _u(test, f"isinstance against {n.id}")
+                    chosen = body if any(holds(n) for n in names) else orelse
+                    return self.block(list(chosen) + list(rest), env, mode)
             _u(test, "isinstance on a value whose declared type differs")
         # None tests: match
         nt = self._none_test(test, env)
@@ -1252,14 +1271,19 @@ class MethodCtx:
                 if t == "F":
                     return x, "F"
                 _u(e, "float() of a non-float")
-            if f.id == "Instant" and len(e.args) == 1:
+            if f.id == "Instant" and len(e.args) == 1 and "Instant" not in self.tr.classes:
                 x, t = self.expr(e.args[0], env)
                 if t in ZLIKE:
                     return x, "I"
-            if f.id == "Duration" and len(e.args) == 1:
+            if f.id == "Duration" and len(e.args) == 1 and "Duration" not in self.tr.classes:
                 x, t = self.expr(e.args[0], env)
                 if t in ZLIKE:
                     return x, "D"
+            if f.id == "int" and len(e.args) == 1:
+                x, t = self.expr(e.args[0], env)
+                if t == "Z":
+                    return x, "Z"
+                _u(e, "int() of a non-integer")
             if f.id == "sum" and len(e.args) == 1 and ast.unparse(e.args[0]).endswith(".values()"):
                 d, dt = self.expr(e.args[0].func.value, env)
                 if dt == "dict":
@@ -1357,6 +1381,7 @@ def translate_target(repo: str, target: dict) -> str:
         order.append(c)
     fc = {float(k): v for k, v in target.get("float_consts", {}).items()}
     tr = Translator(classes, fc)
+    tr.static_isinstance = bool(target.get("static_isinstance"))
     body = []
     for c in order:
         if c.dataclass_order:
